@@ -3,7 +3,7 @@ CONSTANTS
   MaxSigs = 4
   MaxSteps = 3
   MaxOps = 3
-  Tools = {"none", "key", "eth", "manual_ok", "manual_bad", "manual_spell", "message"}
+  Tools = {"none", "key", "eth", "manual_ok", "manual_bad", "manual_spell", "message", "eth_pub"}
 INVARIANT RefusesMalformed
 INVARIANT AcceptsWellFormed
 INVARIANT MessageText
@@ -11,6 +11,7 @@ INVARIANT Eip191Wrap
 INVARIANT Keccak256Digest
 INVARIANT SignatureVerifies
 INVARIANT RoundTripP
+INVARIANT SelectedPathUsed
 INVARIANT ExchangeShape
 INVARIANT AuthorizedIff
 INVARIANT FileNamesItsVersion
